@@ -49,7 +49,7 @@ def main():
         pids = registered if allp else [p for p in registered if p == own]
         if pids:
             jobs.append((n, pids))
-    with ThreadPoolExecutor(4) as ex:
+    with ThreadPoolExecutor(int(os.environ.get("SEED_JOBS","4"))) as ex:
         for res in ex.map(lambda a: run(*a), jobs):
             for r in res:
                 print(*r)
